@@ -344,6 +344,182 @@ def build ():
   return C
 
 
+# ---------------------------------------------------------------------------
+# Templates: the protocols that exist in the corpus as one or two fixed
+# frames, with their variable parts drawn per case (TLV types and lengths,
+# single flags, list lengths up to the protocol's limit, every legal length
+# of an option).  Each returns (family, raw frame); FAMILY_LAYERS says what
+# the frame is.
+
+def _rb (rng, n):
+  r = rng.random()
+  if r < 0.1: return b"\0" * n
+  if r < 0.2: return b"\xff" * n
+  return bytes(rng.getrandbits(8) for _ in range(n))
+
+
+def t_lldp (rng):
+  chassis = rng.choice([b"\x04" + _rb(rng, 6), b"\x07" + b"dpid:%016x" % rng.getrandbits(64),
+                        b"\x05" + _rb(rng, 5), b"\x06" + b"if0"])
+  port = rng.choice([b"\x02" + b"%04d" % rng.randrange(10000), b"\x05eth%d" % rng.randrange(99),
+                     b"\x03" + _rb(rng, 6), b"\x07" + _rb(rng, rng.randrange(1, 20))])
+  extra = b""
+  for _ in range(rng.randrange(0, 7)):
+    k = rng.randrange(8)
+    if k == 0: extra += lldp_tlv(4, _rb(rng, rng.choice([0, 1, 9, 255])))
+    elif k == 1: extra += lldp_tlv(5, _rb(rng, rng.choice([0, 1, 7, 255, 256])))
+    elif k == 2: extra += lldp_tlv(6, _rb(rng, rng.choice([0, 18, 300, 511])))
+    elif k == 3: extra += lldp_tlv(7, struct.pack("!HH", rng.getrandbits(16), rng.getrandbits(16)))
+    elif k == 4:
+      # management address: address string (subtype + address), interface
+      # numbering subtype, interface number, object identifier (0..128)
+      addr = rng.choice([b"\x01" + _rb(rng, 4), b"\x02" + _rb(rng, 16), b"\x06" + _rb(rng, 6)])
+      oid = _rb(rng, rng.choice([0, 0, 1, 9, 128]))
+      extra += lldp_tlv(8, bytes([len(addr)]) + addr + bytes([rng.choice([1, 2, 3])]) +
+                        struct.pack("!L", rng.getrandbits(32)) + bytes([len(oid)]) + oid)
+    elif k == 5:
+      # a TLV type the standard reserves (9..126): carried along as it is
+      extra += lldp_tlv(rng.randrange(9, 127), _rb(rng, rng.choice([0, 1, 4, 40, 300])))
+    else:
+      extra += lldp_tlv(127, _rb(rng, 3) + bytes([rng.getrandbits(8)]) +
+                        _rb(rng, rng.choice([0, 1, 5, 200, 507])))
+  return "lldp", F.eth(bytes.fromhex("0180c200000e"), M1, 0x88cc,
+                       lldp(chassis=chassis, port=port, ttl=rng.choice([0, 1, 120, 65535]),
+                            extra=extra))
+
+
+def t_nd (rng):
+  def opts (kinds):
+    b = b""
+    for _ in range(rng.randrange(0, 4)):
+      k = rng.choice(kinds)
+      if k == 1: b += nd_opt(1, _rb(rng, 6))
+      elif k == 2: b += nd_opt(2, _rb(rng, 6))
+      elif k == 5: b += nd_opt(5, b"\0\0" + struct.pack("!L", rng.choice([0, 1280, 1500, 9000])))
+      elif k == 3:
+        # prefix information: L and A flags each on their own
+        b += nd_opt(3, struct.pack("!BBLLL", rng.choice([0, 48, 64, 128]),
+                                   rng.choice([0, 0x80, 0x40, 0xc0]),
+                                   rng.getrandbits(32), rng.getrandbits(32), 0) +
+                    _rb(rng, 8) + b"\0" * 8)
+      else:
+        b += nd_opt(k, _rb(rng, rng.choice([6, 14, 22])))
+    return b
+  t = rng.choice([133, 134, 135, 136, 136])
+  if t == 133:
+    return "nd_rs", F.eth(bytes.fromhex("333300000002"), M1, 0x86dd, ipv6(LL6, MC6, 58,
+        icmp6(LL6, MC6, 133, 0, b"\0\0\0\0" + opts([1, 14])), hlim=255))
+  if t == 134:
+    body = struct.pack("!BBHLL", rng.choice([0, 64, 255]),
+                       rng.choice([0, 0x80, 0x40, 0xc0]),     # M, O (the bits the library models)
+                       rng.choice([0, 1800, 65535]), rng.getrandbits(32), rng.getrandbits(32))
+    return "nd_ra", F.eth(bytes.fromhex("333300000001"), M2, 0x86dd, ipv6(LL6, MC6, 58,
+        icmp6(LL6, MC6, 134, 0, body + opts([1, 5, 3, 3, 24, 25])), hlim=255))
+  if t == 135:
+    return "nd_ns", F.eth(bytes.fromhex("3333ff000002"), M1, 0x86dd, ipv6(A6, MC6, 58,
+        icmp6(A6, MC6, 135, 0, b"\0\0\0\0" + B6 + opts([1, 14])), hlim=255))
+  # neighbour advertisement: Router, Solicited, Override - each alone too
+  fl = rng.choice([0, 0x80, 0x40, 0x20, 0xc0, 0xa0, 0x60, 0xe0])
+  return "nd_na", F.eth(M1, M2, 0x86dd, ipv6(B6, A6, 58,
+      icmp6(B6, A6, 136, 0, bytes([fl]) + b"\0\0\0" + B6 + opts([2])), hlim=255))
+
+
+def t_rip (rng):
+  n = rng.choice([1, 2, 5, 24, 25, 25, rng.randrange(1, 26)])
+  ents = [(rng.getrandbits(32), rng.choice([0, 0xff000000, 0xffffff00, 0xffffffff]),
+           rng.choice([0, rng.getrandbits(32)]), rng.choice([0, 1, 15, 16]))
+          for _ in range(n)]
+  return "rip", F.eth(M2, M1, 0x0800, F.ipv4(IP1, 0xe0000009, 17, F.udp(
+      520, 520, rip(rng.choice([1, 2]), ents), src=IP1, dst=0xe0000009)))
+
+
+def t_igmp3 (rng):
+  recs = []
+  for _ in range(rng.randrange(1, 5)):
+    recs.append((rng.randrange(1, 7), 0xe0000000 | rng.getrandbits(24),
+                 [rng.getrandbits(32) for _ in range(rng.choice([0, 0, 1, 3]))],
+                 _rb(rng, 4 * rng.choice([0, 0, 1, 2]))))
+  return "igmp3", F.eth(M2, M1, 0x0800, F.ipv4(IP1, 0xe0000016, 2,
+                                             igmp3_report(recs), ttl=1))
+
+
+def t_eapol (rng):
+  t = rng.randrange(5)
+  ver = rng.choice([1, 2, 3])
+  dst = bytes.fromhex("0180c2000003")
+  if t == 0:
+    code = rng.choice([1, 2, 3, 4])
+    if code in (3, 4): body = eap(code, rng.getrandbits(8))
+    else: body = eap(code, rng.getrandbits(8), rng.choice([1, 2, 3, 4, 13, 25, 254]),
+                     _rb(rng, rng.choice([0, 1, 9, 40])))
+    return "eapol_eap", F.eth(dst, M1, 0x888e, eapol(0, body, ver=ver))
+  if t == 3: body = _rb(rng, rng.choice([1, 44, 95, 117]))
+  elif t == 4: body = _rb(rng, rng.choice([0, 10]))
+  else: body = b""
+  return "eapol", F.eth(dst, M1, 0x888e, eapol(t, body, ver=ver))
+
+
+def t_tcp_opts (rng):
+  """Every legal length of the options whose layout depends on it."""
+  opts = b""
+  for _ in range(rng.randrange(1, 4)):
+    k = rng.randrange(9)
+    if k == 0: o = b"\x02\x04" + struct.pack("!H", rng.getrandbits(16))
+    elif k == 1: o = b"\x03\x03" + bytes([rng.randrange(15)])
+    elif k == 2: o = b"\x04\x02"
+    elif k == 3: o = b"\x08\x0a" + struct.pack("!LL", rng.getrandbits(32), rng.getrandbits(32))
+    elif k == 4:
+      nb = rng.randrange(1, 5)                  # SACK with 1..4 blocks
+      o = bytes([5, 2 + 8 * nb]) + _rb(rng, 8 * nb)
+    elif k == 5:
+      # MP_CAPABLE: 12 octets (SYN, SYN/ACK) or 20 (ACK)
+      n = rng.choice([12, 20])
+      o = bytes([30, n, 0x00 | rng.choice([0, 1]), rng.choice([0x81, 0x01, 0x80])]) + _rb(rng, n - 4)
+    elif k == 6:
+      # MP_JOIN: 12 (SYN), 16 (SYN/ACK), 24 (ACK)
+      n = rng.choice([12, 16, 24])
+      o = bytes([30, n, 0x10 | (rng.choice([0, 1]) if n != 24 else 0),
+                 rng.getrandbits(8) if n != 24 else 0]) + _rb(rng, n - 4)
+    elif k == 7:
+      # DSS: every combination of ack (none / 4 / 8) and mapping (none / 4 / 8)
+      A, a, M, m = rng.choice([(1, 0, 0, 0), (1, 1, 0, 0), (0, 0, 1, 0), (0, 0, 1, 1),
+                               (1, 0, 1, 0), (1, 1, 1, 0), (1, 0, 1, 1), (1, 1, 1, 1),
+                               (0, 0, 0, 0)])
+      fl = A | (a << 1) | (M << 2) | (m << 3) | (rng.choice([0, 0, 0x10]) if M else 0)
+      body = b""
+      if A: body += _rb(rng, 8 if a else 4)
+      if M: body += _rb(rng, 8 if m else 4) + _rb(rng, 4) + struct.pack("!HH", rng.getrandbits(16), rng.getrandbits(16))
+      o = bytes([30, 4 + len(body), 0x20, fl]) + body
+    else:
+      # other MPTCP subtypes: ADD_ADDR (v4, with and without port),
+      # REMOVE_ADDR, MP_PRIO, MP_FAIL, MP_FASTCLOSE
+      o = rng.choice([b"\x1e\x08\x34" + _rb(rng, 5), b"\x1e\x0a\x34" + _rb(rng, 7),
+                      b"\x1e\x04\x40" + _rb(rng, 1), b"\x1e\x06\x40" + _rb(rng, 3),
+                      b"\x1e\x03\x50", b"\x1e\x04\x51" + _rb(rng, 1),
+                      b"\x1e\x0c\x60\x00" + _rb(rng, 8), b"\x1e\x0c\x70\x00" + _rb(rng, 8)])
+    if len(opts) + len(o) <= 40: opts += o
+  while len(opts) % 4: opts += b"\x01"
+  return "tcp_opts", F.eth(M2, M1, 0x0800, F.ipv4(IP1, IP2, 6, F.tcp(
+      40000, 443, _rb(rng, rng.choice([0, 1, 2, 11])), options=opts,
+      flags=rng.choice([0x02, 0x12, 0x10, 0x18]), src=IP1, dst=IP2)))
+
+
+TEMPLATES = [t_lldp, t_nd, t_rip, t_igmp3, t_eapol, t_tcp_opts]
+
+FAMILY_LAYERS = {
+  "lldp": "ethernet>lldp",
+  "nd_rs": "ethernet>ipv6>icmpv6>NDRouterSolicitation",
+  "nd_ra": "ethernet>ipv6>icmpv6>NDRouterAdvertisement",
+  "nd_ns": "ethernet>ipv6>icmpv6>NDNeighborSolicitation",
+  "nd_na": "ethernet>ipv6>icmpv6>NDNeighborAdvertisement",
+  "rip": "ethernet>ipv4>udp>rip",
+  "igmp3": "ethernet>ipv4>igmp",
+  "eapol": "ethernet>eapol",
+  "eapol_eap": "ethernet>eapol>eap",
+  "tcp_opts": "ethernet>ipv4>tcp",
+}
+
+
 # What each corpus frame is, in the class vocabulary of the packet library
 # (written down by hand from the frame definitions above; a parser that stops
 # short of this, or takes another turn, has not parsed the frame).
